@@ -1006,8 +1006,8 @@ def check_C15(work, args):
     quick = ck.tier == 'quick'
     st = proof_step(ck, 'C15')
     lv.build_impl(bins=True)
-    n = 30 if quick else 600
-    nperm = 2 if quick else 8
+    n = 30 if quick else 400
+    nperm = 2 if quick else 6
     gs = [gen_grammar.Gen(ck.rng, dict(choice=0.6, nrules=(2, 6)) if i % 2 else None).grammar() for i in range(n * 3)]
     sub = os.path.join(work, 'base')
     items = k3.prepare(sub, gs)
@@ -1044,7 +1044,11 @@ def check_C15(work, args):
     pitems = k3.prepare(os.path.join(work, 'perm'), [None] * len(ptexts), ptexts)
     for it2, i in zip(pitems, pidx):
         it2['g'] = acc[i]['g']
-    k3.build_all([it for it in acc] + [it for it in pitems if it['res'].get('wrote')])
+    # parsers are only built for the pairs whose behaviour is compared (disk and time)
+    max_pairs = 45 if quick else 1200
+    wrote = [k for k, it2 in enumerate(pitems) if it2['res'].get('wrote')]
+    chosen = set(wrote[:max_pairs])
+    k3.build_all([acc[i] for i in sorted(set(pidx[k] for k in chosen))] + [pitems[k] for k in sorted(chosen)])
     evals = 0
     distinct = set()
     for it2, i in zip(pitems, pidx):
@@ -1069,7 +1073,7 @@ def check_C15(work, args):
             continue
     # parser behaviour: same inputs through the parsers of base and permutations (compared by names)
     pairs = [(acc[i], it2) for it2, i in zip(pitems, pidx) if 'pb' in it2 and it2['pb'].rustc_ok and 'pb' in acc[i] and acc[i]['pb'].rustc_ok]
-    pairs = pairs[:(45 if quick else 2000)]
+    pairs = pairs[:max_pairs]
     inputs_cache = {}
     def behav(pair):
         base, it2 = pair
